@@ -61,7 +61,11 @@ prop("C16",
                  "each) are compared bit for bit with two freshly configured objects (canonical and random setter order).  Counters "
                  "prove that every kind of step, both cache settings, all three scanner kinds, re-runs without set_up, repeated "
                  "set_up and the 'energy window changed after a process_data' state occurred.  Detection validated on planted "
-                 "mutations (see DESIGN.md 9.4)"),
+                 "mutations: set_activity_image_sptr without remove_cache_for_integrals_over_activity and "
+                 "set_template_proj_data_info without the two remove_cache calls (history:output-differs-from-fresh-object), "
+                 "attenuation cache indexed [det][point] (crash keys, cache:on-differs-from-off, history:...), incidence cosine of "
+                 "detector A used for both detectors and the energy-dependent attenuation exponent applied to one leg only "
+                 "(symmetry:pair-estimate-... and symmetry:scatter-point-term-changes-when-detectors-are-exchanged)"),
      level_note=("trusted: determinism of the float32 evaluation (bit-wise comparisons are between two executions of the same code "
                  "on the same values), the float32 band of the symmetry and linearity clauses.  An error common to both detector "
                  "orders / to the cached and uncached path / to the history and the fresh object (a wrong physical formula) is "
